@@ -32,7 +32,7 @@ Definition perr {A} (e : Z) : P A := fun _ => Err e.
 
 (* `*data, x = ( *data)[4:], binary.BigEndian.Uint32(( *data)[:4])` *)
 Definition p_u32 : P Z := fun d =>
-  match d with a :: b :: c :: e :: r => Ok (((a * 256 + b) * 256 + c) * 256 + e, r) | _ => Panic 1 end.
+  match d with a :: b :: c :: e :: r => Ok (u32 (((a * 256 + b) * 256 + c) * 256 + e), r) | _ => Panic 1 end.
 
 Fixpoint sf_split (n : nat) (d : list Z) : option (list Z * list Z) :=
   match n with
